@@ -12,9 +12,9 @@
    Inserted generators are list plans (Gen/Paired.v [lplan] without trailing wait).  The message lists are made once,
    so the same Msg objects are yielded at every run of the wrapped plan: content-determined ids ([mk]) are exact here.
 
-   [exp_resume]: the REFERENCE for scripts that only send (every message succeeds): a wrapped-plan message for which
-   [ins m = (pre, post)] is not (nil, nil) and which has not been seen before is expanded to  pre ++ [m] ++ post ;
-   the answer to m itself is what the wrapped plan receives, the answers to the inserted messages are dropped.
+   [exp_resume]: the REFERENCE for scripts that only send (every message succeeds): a message m of the wrapped plan
+   that has not been seen before, with [ins m = (pre, post)], is expanded to  pre ++ [m] ++ post ; the answer to m
+   itself is what the wrapped plan receives, the answers to the inserted messages are dropped.
    Proofs/During.v: on such scripts the plan_mutator machine with a list-inserting processor is this expansion. *)
 From BV Require Import Base.Prelude Gen.Coalg Gen.Mutators Gen.Paired.
 
@@ -82,45 +82,60 @@ Section During.
   (* ---- the reference for send-only scripts *)
   Inductive estate :=
     | EStart (q : Q)
-    | EOut (q : Q) (seen : list msg) (todo : list msg) (own : option (msg * list msg)) (saved : option val).
-      (* a message is out.  [todo]: inserted messages still to come before the next thing happens;
-         [own] = Some (m, post): the wrapped plan's message m itself is still to come (after todo), then post;
-         [own] = None: todo is the rest of the post-messages (or empty: the message out is m itself / a plain one);
-         [saved] = the answer to m, once it has been given (what the wrapped plan will receive) *)
+    | EPre (q : Q) (seen : list msg) (todo : list msg) (m : msg) (post : option (list msg))
+        (* a message inserted BEFORE m is out; then the rest of them [todo], then m itself, then [post] *)
+    | EOwn (q : Q) (seen : list msg) (post : option (list msg))
+        (* the wrapped plan's own message m is out; its answer is what the plan will receive; [post] follows first *)
+    | EPost (q : Q) (seen : list msg) (todo : list msg) (saved : val).
+        (* a message inserted AFTER m is out; [saved] = the answer m got *)
 
+  Definition e_mark (a : msg) (seen : list msg) : list msg := if mem_nat a seen then seen else a :: seen.
+
+  Definition e_pre (q : Q) (seen : list msg) (pre : list msg) (m : msg) (post : option (list msg)) : outcome estate :=
+    match pre with
+    | [] => Yielded m (EOwn q seen post)
+    | a :: r => Yielded a (EPre q (e_mark a seen) r m post)
+    end.
+
+  (* the wrapped plan produced o *)
   Definition e_host (seen : list msg) (o : outcome Q) : outcome estate :=
     match o with
     | Yielded m q' =>
-        if mem_nat m seen then Yielded m (EOut q' seen [] None None)
+        if mem_nat m seen then Yielded m (EOwn q' seen None)           (* seen before: msg_proc is not asked again *)
         else
-          let pre := olist (fst (ins m)) in
-          let post := olist (snd (ins m)) in
-          let seen' := m :: seen in
-          match pre with
-          | [] => Yielded m (EOut q' (post ++ seen') post None None)
-          | a :: r => Yielded a (EOut q' (post ++ m :: pre ++ seen') r (Some (m, post)) None)
+          match ins m with
+          | (None, post) => Yielded m (EOwn q' (m :: seen) post)
+          | (Some pre, post) => e_pre q' (m :: seen) pre m post
           end
     | Returned v => Returned v
     | Raised e => Raised e
     | OutOfFuel => OutOfFuel
     end.
 
+  Definition e_post (q : Q) (seen : list msg) (post : list msg) (saved : val) : outcome estate :=
+    match post with
+    | [] => e_host seen (qres q (Send saved))
+    | a :: r => Yielded a (EPost q (e_mark a seen) r saved)
+    end.
+
   Definition exp_resume (x : estate) (i : input) : outcome estate :=
     match x, i with
     | EStart q, Send VNone => e_host [] (qres q (Send VNone))
     | EStart _, Send _ => Raised ETypeError
-    | EOut q seen (a :: r) own saved, Send _ => Yielded a (EOut q seen r own saved)          (* an inserted message was answered *)
-    | EOut q seen [] (Some (m, post)) _, Send _ => Yielded m (EOut q seen post None None)     (* the last pre-message was answered: m itself *)
-    | EOut q seen [] None None, Send v => e_host seen (qres q (Send v))                       (* m (or a plain message) was answered, nothing follows *)
-    | EOut q seen [] None (Some v), Send _ => e_host seen (qres q (Send v))                   (* the last post-message was answered *)
-    | _, _ => OutOfFuel                                                                        (* not a send: outside this reference *)
+    | EPre q seen todo m post, Send _ => e_pre q seen todo m post          (* the answers to inserted messages are dropped *)
+    | EOwn q seen None, Send v => e_host seen (qres q (Send v))
+    | EOwn q seen (Some post), Send v => e_post q seen post v
+    | EPost q seen todo saved, Send _ => e_post q seen todo saved
+    | _, _ => OutOfFuel                                                    (* not a send: outside this reference *)
     end.
 End During.
 
 Arguments DHostP {Q} q.
 Arguments DList {Q} l.
 Arguments EStart {Q} q.
-Arguments EOut {Q} q seen todo own saved.
+Arguments EPre {Q} q seen todo m post.
+Arguments EOwn {Q} q seen post.
+Arguments EPost {Q} q seen todo saved.
 
 (* ------------------------------------------------------------------ the two wrappers *)
 Section DuringWrappers.
